@@ -171,16 +171,35 @@ def callPrefix (p s : String) : Bool := p.toUTF8.data.toList.isPrefixOf s.toUTF8
 def callIsSafe (callee : String) : Bool :=
   documentedConcurrencySafe.contains callee || safeFamilies.any (fun p => callPrefix p callee)
 
+/-- Containers of package `sync` that are documented as safe for concurrent use AND carry state from one request to the
+    next (`sync.Map`: "safe for concurrent use by multiple goroutines without additional locking or coordination";
+    `sync.Pool`: "safe for use by multiple goroutines simultaneously").  A call on a shared one is no data race, and what
+    is read out of one was published by the call that put it in.  Whether what it carries breaks ISOLATION (a recycled
+    object that still holds another request's data) is NOT decided by this file: when the regenerated footprint
+    contains such a call the check runs the concurrent correspondence at thorough depth (evidence
+    `synchronised_shared_containers`; lib/props.py `_c05_extra_all`).  Writes to the objects kept in such a container are
+    still subject to `footprint_disciplined`. -/
+def synchronisedContainers : List String := ["(*sync.Map).", "(*sync.Pool)."]
+
+def callIsSynchronised (callee : String) : Bool := synchronisedContainers.any (fun p => callPrefix p callee)
+
 /-- every library call that serving makes on definitely-shared objects is documented as safe for concurrent use — by
-    name, or as a member of a read-only family; a new stateful one (say a shared `bytes.Buffer` or `sync.Pool`)
-    breaks the build until it is justified -/
-theorem library_calls_documented : ∀ c ∈ libraryCallsOnShared, callIsSafe c.callee = true := by
+    name, as a member of a read-only family, or as a method of a synchronised container; any other stateful one (a shared
+    `bytes.Buffer`, a `strings.Builder`, a mutex whose critical section the extraction cannot see) breaks the build until
+    it is justified -/
+theorem library_calls_documented : ∀ c ∈ libraryCallsOnShared,
+    callIsSafe c.callee = true ∨ callIsSynchronised c.callee = true := by
   decide
+
+/-- the calls of the current footprint on synchronised containers (today: none) -/
+def statefulSharedCalls : List LibCall := libraryCallsOnShared.filter (fun c => callIsSynchronised c.callee)
 
 /-- … and the families do not let the stateful ones in -/
 example : callIsSafe "(*bytes.Buffer).WriteString" = false ∧ callIsSafe "(*sync.Pool).Get" = false ∧
     callIsSafe "(*sync.Map).Store" = false ∧ callIsSafe "(*strings.Builder).WriteString" = false ∧
-    callIsSafe "(*sync.Pool).Put" = false ∧ callIsSafe "invoke reflect.Type.Kind" = true := by decide
+    callIsSafe "(*sync.Pool).Put" = false ∧ callIsSafe "invoke reflect.Type.Kind" = true ∧
+    callIsSynchronised "(*sync.Map).Store" = true ∧ callIsSynchronised "(*sync.Mutex).Lock" = false ∧
+    callIsSynchronised "(*bytes.Buffer).WriteString" = false := by decide
 
 /-! ## (iii) isolation: every interleaving is serial for every request -/
 
